@@ -78,6 +78,8 @@ inductive Op
   | verify                        -- signature_valid, remainder = self._verify_signature(auth, data)
   | decode (src : Src) (off : Nat) -- unpacked = unpack_serializable_list(payloads, src, offset=off)   (consume_all)
   | assertValid                   -- if not signature_valid: raise PacketDecodingError
+  | assertDebug                   -- assert signature_valid, msg     (compiled away under python -O / PYTHONOPTIMIZE;
+                                  --   NOT in the code today; translated so that it fails the guard, not the translator)
   | lookupPeer                    -- peer = network.verified_by_public_key_bin.get(auth.public_key_bin)
   | orLookupByAddr                -- peer = peer or network.get_verified_by_address(source_address)   (NOT in the code
                                   --   today; translated so that such an `or`-chain fails the guard, not the translator)
@@ -122,6 +124,8 @@ structure Env (P : Type) where
   /-- `Network.get_verified_by_address(source_address)`: key of whichever verified peer is recorded at the source
       address of this datagram (unrelated to what the datagram carries) -/
   netAddr : Option Bytes := none
+  /-- interpreter configuration: `python -O` / `PYTHONOPTIMIZE` (assert statements are not executed) -/
+  optimized : Bool := false
 
 structure Regs (P : Type) where
   auth : Option Bytes := none
@@ -157,6 +161,12 @@ def step {P : Type} (E : Env P) (data : Bytes) (r : Regs P) : Op → Except (Out
       | none => .error (.rejected .decode)
       | some p => .ok { r with unpacked := some p }
   | .assertValid =>
+    match r.sigValid with
+    | none => .error .stuck
+    | some true => .ok r
+    | some false => .error (.rejected .signature)
+  | .assertDebug =>
+    if E.optimized then .ok r else
     match r.sigValid with
     | none => .error .stuck
     | some true => .ok r
